@@ -26,7 +26,11 @@ PROPERTY = 'C04'
 LEVEL = 'exploration'
 RULE = ('one case = (program of the family, mode in {abort, sigint, inline, double, stress}, '
         'pause point (thread role, function, line, hit) taken from a discovery run of that '
-        'program, or a seed); quick samples points per program and mode, thorough enumerates '
+        'program, or a seed); every line reached by any family program (first and second hit) is the '
+        'pause point of one simple abort, and every line reached by the aborting thread is '
+        'held 150 ms once (mode aabort: abort after the start / end of the slow main phase) '
+        'while the framework threads run on; beyond that quick samples points per program '
+        'and mode, thorough enumerates '
         'every reached point (hits <= 3) for abort and inline and samples sigint/double; '
         'distinct = distinct (program, mode, point/seed); non-trivial = the abort action was '
         'performed while the test was running and the run was judged')
@@ -38,7 +42,7 @@ ASSUMPTIONS = [
 ]
 REQUIRED_COUNTERS = ['schedules_run', 'aborts_performed', 'runs_judged',
                      'aborted_outcomes', 'sigint_real', 'inline_handler_runs',
-                     'double_aborts']
+                     'double_aborts', 'mode_aabort']
 EXHAUSTIVE = {'quick': False, 'thorough': False}
 PLAN = {
     'quick': {'workers': 16, 'budget_s': 80, 'sampled_per_worker': 0,
@@ -63,12 +67,12 @@ def _s(pid, t=0.01, **beh):
 START = _s('start', 0.005, plugs=[0])
 FAMILY = [
     # 0: test_start + group + trailing phase
-    ([_p('a', plugs=[0]), ['G', [_p('s')], [_s('m1', 0.02), _p('m2')],
+    ([_p('a', plugs=[0]), ['G', [_p('s')], [_s('m1', 0.02, noarg=True), _p('m2', noarg=True)],
                             [_p('t1'), _s('t2', 0.005)]], _p('z')],
      {'start': START}),
     # 1: nested groups
     ([['G', [_s('s', 0.005, plugs=[0])],
-       [['G', [_p('s2')], [_s('m2', 0.02)], [_p('t2a')]], _p('m1b')],
+       [['G', [_p('s2', noarg=True)], [_s('m2', 0.02, noarg=True)], [_p('t2a')]], _p('m1b')],
        [_p('t1a'), _p('t1b')]]], {}),
     # 2: subtest with FAIL_SUBTEST inside a group
     ([['T', 'st', [_p('u1', plugs=[0]),
@@ -91,16 +95,17 @@ FAMILY = [
       ['B', 'br', 'ANY', ['D1'], [['G', [_p('s')], [_s('m', 0.02)], [_p('t1')]]]],
       _p('z')], {}),
     # 7: plain sequence of slow phases with run_if and test diagnoser
-    ([_s('a', 0.01, plugs=[0]), _p('b', run_if=False), _s('c', 0.01), _p('d')],
+    ([_s('a', 0.01, plugs=[0]), _p('b', run_if=False), _s('c', 0.01, noarg=True),
+      _p('d', noarg=True)],
      {'tdiag': 'pass', 'start': START}),
     # 8: body that runs until it is killed
     ([_p('a', plugs=[0]), ['G', [_p('s')], [_p('m', r='H')], [_p('t1')]], _p('z')],
      {}),
     # 9: long teardown (for second aborts)
-    ([['G', [_p('s', plugs=[0])], [_s('m', 0.01)],
-       [_s('t1', 0.03), _s('t2', 0.03), _p('t3')]], _p('z')], {}),
+    ([['G', [_p('s', plugs=[0])], [_s('m', 0.01, noarg=True)],
+       [_s('t1', 0.03, noarg=True), _s('t2', 0.03), _p('t3')]], _p('z')], {}),
 ]
-MODES = ['abort', 'sigint', 'inline', 'double', 'stress']
+MODES = ['abort', 'sigint', 'inline', 'double', 'stress']   # + 'aabort', see enumerated()
 
 
 def setup():
@@ -120,6 +125,17 @@ def enumerated(tier):
       else:
         for j in range(n):
           yield {'family': fi, 'mode': mode, 'pick': j}
+
+
+  # every line any family program reaches (first hit) is the pause point of at
+  # least one simple abort, and every line the aborting thread reaches is held
+  # once while the framework threads run on
+  for j in range(1400):
+    yield {'family': None, 'mode': 'abort', 'cover': j}
+  for fi in ((0, 5, 8) if tier == 'quick' else range(len(FAMILY))):
+    for when in (('start',) if tier == 'quick' else ('start', 'end')):
+      for idx in range(60 if tier == 'quick' else 400):
+        yield {'family': fi, 'mode': 'aabort', 'when': when, 'idx': idx}
 
 
 def sampled(tier, rng):
@@ -212,6 +228,31 @@ def discover(fi):
   return _POINTS[fi]
 
 
+_COVER = []
+_APOINTS = {}
+
+
+def cover_list():
+  if not _COVER:
+    where = {}
+    for fi in range(len(FAMILY)):
+      by_role = discover(fi)
+      for role in ('exec', 'phase', 'main'):
+        for key, h in by_role[role]:
+          if h <= 2:
+            where.setdefault((key, h), []).append(fi)
+    _COVER.extend(sorted(where.items()))
+  return _COVER
+
+
+def slow_pid(prog, cfg):
+  for n, _ in pm.walk(prog):
+    if n[0] == 'P' and (n[2].get('slow') or n[2].get('r') == 'H') and \
+        n[1] not in ('start',):
+      return n[1]
+  return None
+
+
 def pick_point(case, pts, salt):
   if 'pick' in case:
     rng = random.Random('%s/%s/%s/%s' % (case['family'], salt, case['pick'],
@@ -259,6 +300,8 @@ def _child_main():
   from vf import abortlab
   case = json.loads(sys.argv[1])
   sys.argv = ['verif-c04-child']
+  from vf import worker
+  worker.normal_sigint()
   setup()
   started = time.monotonic()
 
@@ -330,18 +373,43 @@ def _child_main():
 def run_case_inner(case):
   from vf import abortlab
   fi, mode = case['family'], case['mode']
+  skip = {'sig': None, 'violations': [], 'counters': {}, 'evaluations': 0,
+          'sample': False}
+  cover_target = None
+  if 'cover' in case:
+    cl = cover_list()
+    if case['cover'] >= len(cl):
+      return skip
+    cover_target, fams = cl[case['cover']]
+    fi = fams[(case['cover'] + int(os.environ.get('VERIF_SEED', '0'))) % len(fams)]
   prog, cfg = FAMILY[fi]
   by_role = discover(fi)
   allpts = by_role['exec'] + by_role['phase'] + by_role['main']
-  skip = {'sig': None, 'violations': [], 'counters': {}, 'evaluations': 0,
-          'sample': False}
   ctx = {'family': fi, 'mode': mode}
   region = None
   if mode == 'abort':
-    target = pick_point(case, allpts, 'abort')
+    target = cover_target or pick_point(case, allpts, 'abort')
     if target is None:
       return skip
     obs = abortlab.run(prog, cfg, target=target, action='abort')
+  elif mode == 'aabort':
+    # the aborting thread itself is held at a line of its own path
+    hang_body = any(n[0] == 'P' and n[2].get('r') == 'H' for n, _ in pm.walk(prog))
+    ev = ('hang' if hang_body else case['when'], slow_pid(prog, cfg))
+    akey = (fi, ev)
+    if akey not in _APOINTS:
+      d = abortlab.run(prog, cfg, abort_after_event=ev, abort_in_thread=True)
+      pts = [(k, h) for k, n in sorted(d['seen'].items()) if k[0] == 'abort'
+             for h in range(1, min(n, 3) + 1)]
+      pts.sort(key=lambda p: (p[1], p[0]))
+      _APOINTS[akey] = pts
+    pts = _APOINTS[akey]
+    if case['idx'] >= len(pts):
+      return skip
+    target = pts[case['idx']]
+    ctx['abort_after'] = list(ev)
+    obs = abortlab.run(prog, cfg, target=target, abort_after_event=ev,
+                       abort_in_thread=True)
   elif mode == 'sigint':
     target = pick_point(case, by_role['exec'] + by_role['phase'], 'sigint')
     if target is None:
